@@ -380,6 +380,32 @@ func c01History(r *Run, h int, ts TxnSchema, nT int, plans []monPlan, txns []Txn
 		if ti == nT {
 			break
 		}
+		// an additional Monitor call that fails (no tables, a table the model does not have, a cancelled
+		// context) must leave the client as it was: the monitors it has keep feeding the cache
+		if len(clients) > 0 && r.Rng.Intn(5) == 0 {
+			ids := []int{}
+			for id := range clients {
+				ids = append(ids, id)
+			}
+			sort.Ints(ids)
+			mc := clients[ids[r.Rng.Intn(len(ids))]]
+			if len(mc.cols) > 0 {
+				bad := &client.Monitor{Method: monitorMethods[r.Rng.Intn(3)], LastTransactionID: "00000000-0000-0000-0000-000000000000"}
+				fctx, fcancel := ctxT(2 * time.Second)
+				// (a Monitor call whose context expires is not used here: its request may have reached the server,
+				// which then feeds the cache through a monitor the client does not know about, and a later
+				// Monitor of that table is answered with rows the cache already holds; the call fails with an
+				// error, which the properties allow, so it is noted in DESIGN.md and not held against C01)
+				if r.Rng.Intn(2) == 0 {
+					count("failed-monitor:no-tables")
+				} else {
+					bad.Tables = []client.TableMonitor{{Table: "NoSuchTable"}}
+					count("failed-monitor:unknown-table")
+				}
+				_, _ = mc.c.Monitor(fctx, bad)
+				fcancel()
+			}
+		}
 		// the transaction
 		var txn TxnJ
 		w := -1
